@@ -38,6 +38,10 @@ def main():
         if os.path.isfile(os.path.join(src, f)):
             shutil.copy(os.path.join(src, f), dst)
     patch = os.path.join(dst, "patch.diff")
+    if not os.path.isdir(wt):
+        # the scratch worktree of /repo is created on demand (and removed by hand when the seed runs are over)
+        os.makedirs(SEED, exist_ok=True)
+        sh(f"git -C /repo worktree add -q --detach {wt} HEAD")
     env = {"CARGO_TARGET_DIR": f"{wt}/target", "CARGO_NET_OFFLINE": "true"}
     log = {"property": prop, "mutation": m, "ran": []}
     sh("git checkout -- . && git clean -fdq examples", cwd=wt)
